@@ -246,7 +246,12 @@ def c06_t3(ctx, f):
                     remaining = poly.normalise(other[0], ren)
             pc = at.params_of_type("usize")
             exp = poly.A("param%d" % pc[0]) - poly.A("bits_so_far") if len(pc) == 1 else None
-            ctx.check(rid, okm and four and remaining == exp, at.path + "/terminator", c.where(), at.path, "terminator push",
+            if okm and four and remaining is not None and exp is not None and remaining != exp and not all(
+                    a_ in ("param%d" % pc[0], "bits_so_far") for a_ in remaining.atoms()):
+                # the remaining capacity is computed through something outside the vocabulary (saturating_sub, a helper..)
+                ctx.abstain(rid, "terminator width min(.., 4): remaining capacity not in the recognised form (%s)" % remaining.show(), c.where())
+            else:
+              ctx.check(rid, okm and four and remaining == exp, at.path + "/terminator", c.where(), at.path, "terminator push",
                       "the terminator is not min(capacity - bits so far, 4) zero bits", expected="push_bits(0, min(data_bits - len, 4))",
                       found="push_bits(%s, %s) remaining=%s" % (expr_str(v, at), expr_str(w, at), remaining.show() if remaining else None),
                       sample="terminator = min(data_bits - len, 4) zero bits")
